@@ -11,6 +11,55 @@ class WPoint:  # a class *defined* in this module (Point above is only imported 
     y: int
 
 
+@dataclasses.dataclass
+class WOther:
+    name: str
+
+
+@dataclasses.dataclass
+class WOuter:
+    @dataclasses.dataclass
+    class WInner:
+        x: int
+
+    inner: "WOuter.WInner"
+
+
+@dataclasses.dataclass
+class RecPlain:
+    v: int
+    kids: "list[RecPlain]" = dataclasses.field(default_factory=list)
+    parent: "t.Optional[RecPlain]" = None
+
+
+@dataclasses.dataclass
+class RecNT:  # closes its cycle through a NewType
+    v: int
+    kids: "list[RecNT]" = dataclasses.field(default_factory=list)
+    parent: "t.Optional[RecNTRef]" = None
+
+
+RecNTRef = t.NewType("RecNTRef", RecNT)
+
+
+@dataclasses.dataclass
+class RecTA:  # closes its cycle through a type alias
+    v: int
+    kids: "list[RecTA]" = dataclasses.field(default_factory=list)
+    parent: "t.Optional[RecTARef]" = None
+
+
+RecTARef = t.TypeAliasType("RecTARef", RecTA)
+
+
+@dataclasses.dataclass
+class RecKids:  # the collection edge goes through the alias
+    v: int
+    kids: "list[RecKidsRef]" = dataclasses.field(default_factory=list)
+
+
+RecKidsRef = t.TypeAliasType("RecKidsRef", RecKids)
+
 IntT = int
 ListInt = list[int]
 DictStrInt = dict[str, int]
